@@ -19,56 +19,56 @@ CHECKS = {
     "C02": (
         "exploration",
         "relation monitor: every footprint call is paired with the forward dispersion run of the same inputs; sum(q0*F) vs forward flux at the tower cell, sum(q0*G) vs forward concentration above background",
-        "Seeded random set-ups stratified over the six halo classes (zero, default, sub-cell, commensurate, one-axis, incommensurate) x full/truncated/over-requested modes x even/odd grids x closures, synthetic anisotropic and constant profiles x sources x on-grid points x single/multi level x both precisions (192 quick / 16000 thorough set-ups, ~14 comparisons each); a run without an incommensurate-halo case is inconclusive. The weighted sum is also taken with utils.point_measurement on Fortran-ordered / transposed / strided copies of the source. All solver calls go through the monitored call path (argument-purity guard, value-preserving re-spelling of containers / memory layout chosen per case, decoy solves before 30 % of the cases) and the shards alternate between the two kernel worlds.",
+        "Seeded random set-ups stratified over the six halo classes (zero, default, sub-cell, commensurate, one-axis, incommensurate) x full/truncated/over-requested modes x even/odd grids x closures, synthetic anisotropic and constant profiles x sources x on-grid points x single/multi level x both precisions (192 quick / 48000 thorough set-ups, ~14 comparisons each); a run without an incommensurate-halo case is inconclusive. The weighted sum is also taken with utils.point_measurement on Fortran-ordered / transposed / strided copies of the source. All solver calls go through the monitored call path (argument-purity guard, value-preserving re-spelling of containers / memory layout chosen per case, decoy solves before 30 % of the cases) and the shards alternate between the two kernel worlds.",
         "Trusted: numpy summation; conditioning guard G<=18 and tolerance max(1e-9, 5000 eps e^G) calibrated on 3200 set-ups.",
         "DESIGN.md section 4, C02",
     ),
     "C03": (
         "exploration",
         "relation + reference-model monitor: conservation of the horizontal mean flux, resistance oracles (exact for constant Kz, nodal Riemann bracket, refinement against scipy quadrature), unit footprint sum, and halo == explicit pad / halo=0 / crop on the real solver",
-        "Seeded random set-ups: 160+160+20 quick / 9600+9600+1200 thorough cases for (conservation, halo equivalence per halo class in dispersion, re-centred dispersion and footprint mode, resistance refinement); identities at 1e-11 (double) / 2e-6 (single), halo equivalence with the conditioning-aware tolerance. A third of the constant-profile cases use integer-valued heights with dtype int64 and a quarter an integer-typed background. All solver calls go through the monitored call path (argument-purity guard, value-preserving re-spelling of containers / memory layout chosen per case, decoy solves before 30 % of the cases) and the shards alternate between the two kernel worlds.",
+        "Seeded random set-ups: 160+160+20 quick / 28800+28800+3600 thorough cases for (conservation, halo equivalence per halo class in dispersion, re-centred dispersion and footprint mode, resistance refinement); identities at 1e-11 (double) / 2e-6 (single), halo equivalence with the conditioning-aware tolerance. A third of the constant-profile cases use integer-valued heights with dtype int64 and a quarter an integer-typed background. All solver calls go through the monitored call path (argument-purity guard, value-preserving re-spelling of containers / memory layout chosen per case, decoy solves before 30 % of the cases) and the shards alternate between the two kernel worlds.",
         "Trusted: the nodal-bracket argument (any rule using a layer's own nodal values lies between the Riemann sums); scipy.integrate.quad.",
         "DESIGN.md section 4, C03",
     ),
     "C04": (
         "exploration",
         "relation monitor: superposition over three recorded calls, flux independence of the background, uniform background offset, bitwise independence of footprint mode from source values (zeros, 1e300, inf/nan, integers)",
-        "Seeded random set-ups x source pairs x coefficients over six decades x backgrounds x levels x halos x modes x numeric/analytic x both precisions, sources incl. pure sinks: 192 quick / 16000 thorough cases, 11 solver calls each. A third of the cases pass the background as Python int / numpy integer. All solver calls go through the monitored call path (argument-purity guard, value-preserving re-spelling of containers / memory layout chosen per case, decoy solves before 30 % of the cases) and the shards alternate between the two kernel worlds.",
+        "Seeded random set-ups x source pairs x coefficients over six decades x backgrounds x levels x halos x modes x numeric/analytic x both precisions, sources incl. pure sinks: 192 quick / 48000 thorough cases, 11 solver calls each. A third of the cases pass the background as Python int / numpy integer. All solver calls go through the monitored call path (argument-purity guard, value-preserving re-spelling of containers / memory layout chosen per case, decoy solves before 30 % of the cases) and the shards alternate between the two kernel worlds.",
         "Trusted: conditioning-aware tolerance relative to |a| max|S1| + |b| max|S2|.",
         "DESIGN.md section 4, C04",
     ),
     "C05": (
         "exploration",
         "reference-model monitor (closed-form half-space solution in Fourier space) for analytic mode + error-law monitor (L2 numeric-analytic error at n, 2n, 4n, 8n layers, gain from 2n to 8n >= 36) with halo, truncation, tower shift and crop switched on",
-        "Seeded random constant anisotropic profiles: 160 quick / 12000 thorough closed-form cases (every retained wavenumber strictly inside the cut-off) and 320 / 24000 four-level refinements on uniform and geometric grids (about 45 % qualify as resolved and above the rounding floor). The gain threshold 36 was calibrated on both trees: >= 57.5 on 1803 cases of the repaired tree, <= 23.3 on 894 cases of the pinned (second-order) tree. One refinement case in six is a deep column (fastest retained component decays by e^-40..e^-70 over the column) observed in its lowest eighth. All solver calls go through the monitored call path (argument-purity guard, value-preserving re-spelling of containers / memory layout chosen per case, decoy solves before 30 % of the cases) and the shards alternate between the two kernel worlds.",
+        "Seeded random constant anisotropic profiles: 160 quick / 36000 thorough closed-form cases (every retained wavenumber strictly inside the cut-off) and 352 / 79200 four-level refinements on uniform, geometric and weakly stretched grids, one in eleven on a deep column (about 45 % qualify as resolved and above the rounding floor). The gain threshold 36 was calibrated on both trees: >= 57.5 on 1803 cases of the repaired tree, <= 23.3 on 894 cases of the pinned (second-order) tree. One refinement case in six is a deep column (fastest retained component decays by e^-40..e^-70 over the column) observed in its lowest eighth. All solver calls go through the monitored call path (argument-purity guard, value-preserving re-spelling of containers / memory layout chosen per case, decoy solves before 30 % of the cases) and the shards alternate between the two kernel worlds.",
         "Trusted: the closed form written in vlib/oracles.py; threshold 36 is a calibrated constant.",
         "DESIGN.md section 4, C05",
     ),
     "C06": (
         "exploration",
         "relation monitor: source translation, tower translation, point reflection against the unit-source response (periodic grid, and on the overlap under every halo class), and re-centring (full relation on the periodic grid, overlap + centre value under a halo) over groups of recorded calls",
-        "Seeded random set-ups with dx != dy, even and odd sizes, shifts incl. 0, +-1, n-1, wrap-around: 192 quick / 16000 thorough cases x 6 relations; phase-only relations at 1e-11, relations through the vertical solve with the conditioning-aware tolerance. All solver calls go through the monitored call path (argument-purity guard, value-preserving re-spelling of containers / memory layout chosen per case, decoy solves before 30 % of the cases) and the shards alternate between the two kernel worlds.",
+        "Seeded random set-ups with dx != dy, even and odd sizes, shifts incl. 0, +-1, n-1, wrap-around: 192 quick / 48000 thorough cases x 6 relations; phase-only relations at 1e-11, relations through the vertical solve with the conditioning-aware tolerance. All solver calls go through the monitored call path (argument-purity guard, value-preserving re-spelling of containers / memory layout chosen per case, decoy solves before 30 % of the cases) and the shards alternate between the two kernel worlds.",
         "Trusted: numpy roll/indexing as the statement of the relation.",
         "DESIGN.md section 4, C06",
     ),
     "C07": (
         "exploration",
         "relation monitor: mirror in x / y (Fourier comparison off the Nyquist and cut-off wavenumbers on halo=0; exact plain flip on odd grids under every halo class), transpose, length-scale and velocity-scale similarity over pairs of recorded calls",
-        "Seeded random set-ups with Kx != Ky != Kz, oblique winds, non-square grids, all halo classes for transpose/scalings, scale factors over six decades: 192 quick / 16000 thorough cases x 10 solver calls. All solver calls go through the monitored call path (argument-purity guard, value-preserving re-spelling of containers / memory layout chosen per case, decoy solves before 30 % of the cases) and the shards alternate between the two kernel worlds.",
+        "Seeded random set-ups with Kx != Ky != Kz, oblique winds, non-square grids, all halo classes for transpose/scalings, scale factors over six decades: 192 quick / 48000 thorough cases x 10 solver calls. All solver calls go through the monitored call path (argument-purity guard, value-preserving re-spelling of containers / memory layout chosen per case, decoy solves before 30 % of the cases) and the shards alternate between the two kernel worlds.",
         "Trusted: non-power-of-two length scales only where int(halo/dx) is not on a knife edge.",
         "DESIGN.md section 4, C07",
     ),
     "C10": (
         "exploration",
         "relation monitor: every multi-level call is paired with the single-level calls and the full-column call of the same inputs; returned heights compared exactly",
-        "Seeded random set-ups x eight selection kinds (scalar, single, ascending, descending, shuffled, top-first, full, full reversed) x list/ndarray/numpy-integer forms x footprint/dispersion x numeric/analytic x both precisions x nz up to 64: 240 quick / 14400 thorough selections, ~22 slice comparisons each (all bitwise equal on the repaired tree). Level arrays come in signed and unsigned integer dtypes. All solver calls go through the monitored call path (argument-purity guard, value-preserving re-spelling of containers / memory layout chosen per case, decoy solves before 30 % of the cases) and the shards alternate between the two kernel worlds.",
+        "Seeded random set-ups x eight selection kinds (scalar, single, ascending, descending, shuffled, top-first, full, full reversed) x list/ndarray/numpy-integer forms x footprint/dispersion x numeric/analytic x both precisions x nz up to 64: 240 quick / 43200 thorough selections, ~22 slice comparisons each (all bitwise equal on the repaired tree). Level arrays come in signed and unsigned integer dtypes. All solver calls go through the monitored call path (argument-purity guard, value-preserving re-spelling of containers / memory layout chosen per case, decoy solves before 30 % of the cases) and the shards alternate between the two kernel worlds.",
         "Trusted: none beyond the solver itself (self-consistency relation); duplicated indices and tuples not generated.",
         "DESIGN.md section 4, C10",
     ),
     "C11": (
         "exploration",
         "relation monitor over an exhaustive small range: shape/coordinates, low-pass relation in Fourier space, registration against explicit pad / halo=0 / crop, over-request equivalence, exact surface-level identity (flux at z0 == source / unit pulse) when every mode is retained; ValueError/IndexError counted as accepted outcomes",
-        "quick: a 3240-tuple Latin subsample of nx, ny in 4..9 x even modes 2..12 per axis x five halos x two modes; thorough: all 40 960 tuples of the wider range nx, ny in 4..11, modes 2..16 (exhaustive over that range). Plus a coordinate clause over 1024 quick / 16384 thorough random (extent, cell count) pairs. All solver calls go through the monitored call path (argument-purity guard, value-preserving re-spelling of containers / memory layout chosen per case, decoy solves before 30 % of the cases) and the shards alternate between the two kernel worlds.",
+        "quick: a 3240-tuple Latin subsample of nx, ny in 4..9 x even modes 2..12 per axis x five halos x two modes; thorough: all 40 960 tuples of the wider range nx, ny in 4..11, modes 2..16 (exhaustive over that range). Plus a coordinate clause over 1024 quick / 65536 thorough random (extent, cell count) pairs. All solver calls go through the monitored call path (argument-purity guard, value-preserving re-spelling of containers / memory layout chosen per case, decoy solves before 30 % of the cases) and the shards alternate between the two kernel worlds.",
         "Trusted: numpy FFT for the spectral comparison; one fixed well-conditioned anisotropic column.",
         "DESIGN.md section 4, C11",
     ),
@@ -89,7 +89,7 @@ CHECKS = {
     "C13": (
         "exploration",
         "reference-model monitor: hand re-assembly of the documented low-level pipeline next to every run_bldfm_single call (bitwise), recording spies on the four callables bldfm.interface references, YAML dump/load vs dict parse",
-        "Seeded random configurations (96 quick / 6400 thorough, ~4.5 (tower, step) runs each, each followed in the same process by four variants on the same grid; oracle from a deep copy of the configuration as given, which the run must not mutate) over closures, precisions, footprint/dispersion, analytic, default/explicit halo and modes, output_levels/full_output/default, z0/ustar/both, scalar/list forcing, 1-3 towers, every time index, ideal and user-supplied flux. A fifth of the configurations put the reference origin on the equator and / or the Greenwich meridian (a coordinate exactly 0); the tower's local coordinates are re-derived by the harness from latitude / longitude.",
+        "Seeded random configurations (96 quick / 19200 thorough, ~4.5 (tower, step) runs each, each followed in the same process by four variants on the same grid; oracle from a deep copy of the configuration as given, which the run must not mutate) over closures, precisions, footprint/dispersion, analytic, default/explicit halo and modes, output_levels/full_output/default, z0/ustar/both, scalar/list forcing, 1-3 towers, every time index, ideal and user-supplied flux. A fifth of the configurations put the reference origin on the equator and / or the Greenwich meridian (a coordinate exactly 0); the tower's local coordinates are re-derived by the harness from latitude / longitude.",
         "Trusted: the pipeline order as documented in the interface's docstring (z0 precedence, level rule).",
         "DESIGN.md section 4, C13",
     ),
@@ -110,7 +110,7 @@ CHECKS = {
     "C09": (
         "exploration",
         "reference-model monitor: harness's own Businger-Dyer functions, log-law, similarity diffusivities and exp-mapped grid evaluated next to every observed vertical_profiles / psi / phi call; quadrature oracle for psi",
-        "Seeded random sampling (640 quick / 51 200 thorough draws, each followed in the same process by two sibling calls that differ from it in exactly one argument) over closures MOST/MOSTM/CONSTANT/OAAHOC, ustar and z0 forcing, both stabilities to the neutral limit, n=1..64, Prandtl numbers, default and non-default domain_height/stretch; exact formulas compared to 1e-10..1e-12 plus the ustar->z0->ustar round trip; psi against scipy quadrature, continuity at 0 and the reference model's copies. The wind vector is handed over as tuple / list / float64 array / strided view behind the argument-purity guard.",
+        "Seeded random sampling (640 quick / 102 400 thorough draws, each followed in the same process by two sibling calls that differ from it in exactly one argument) over closures MOST/MOSTM/CONSTANT/OAAHOC, ustar and z0 forcing, both stabilities to the neutral limit, n=1..64, Prandtl numbers, default and non-default domain_height/stretch; exact formulas compared to 1e-10..1e-12 plus the ustar->z0->ustar round trip; psi against scipy quadrature, continuity at 0 and the reference model's copies. The wind vector is handed over as tuple / list / float64 array / strided view behind the argument-purity guard.",
         "Trusted: the similarity formulas written in vlib/gen.py and the check; scipy.integrate.quad. Round-trip and top-node tolerances include the documented rounding amplification of the exp-map.",
         "DESIGN.md section 4, C09",
     ),
@@ -124,14 +124,14 @@ CHECKS = {
     "C19": (
         "exploration",
         "reference-model monitor: Kormann & Meixner (2001) eqs. 9, 11, 18-21, 31-36 re-evaluated with an own rotation next to every observed estimateFootprint call; relation monitors for int/float parity, symmetry, rot90, mass vs incomplete gamma, estimateZ0 inversion and rotation invariance",
-        "Seeded random physically consistent parameter sets (200 quick / 7200 thorough), each exercised by ~40 monitored calls incl. later calls in the same process with the same height and stability and other wind / friction velocity: cell-by-cell closed form (1e-10), integer parity in every scalar position and three integer types, sign/downwind/symmetry, wd+90k == rot90, mass residual law at four resolutions on the footprint's own scale, estimateZ0 log-law inversion and invariance under integer rotations. estimateFootprint / estimateZ0 run behind the argument-purity guard.",
+        "Seeded random physically consistent parameter sets (200 quick / 21600 thorough), each exercised by ~40 monitored calls incl. later calls in the same process with the same height and stability and other wind / friction velocity: cell-by-cell closed form (1e-10), integer parity in every scalar position and three integer types, sign/downwind/symmetry, wd+90k == rot90, mass residual law at four resolutions on the footprint's own scale, estimateZ0 log-law inversion and invariance under integer rotations. estimateFootprint / estimateZ0 run behind the argument-purity guard.",
         "Trusted: scipy.special gamma/gammaincc; the paper's equations as transcribed in the check; mass thresholds are calibrated constants with a 3x margin.",
         "DESIGN.md section 4, C19",
     ),
     "C20": (
         "exploration",
         "reference-model monitor: O(n^2) brute-force evaluation of the definition (exact rational arithmetic for the percentile search) next to every observed get_source_area / extract_percentile_contour call; metamorphic relations (monotone transform, permutation, scaling, monotonicity in p)",
-        "Seeded random fields (ties, zeros, sparse, 1e+-200 magnitudes, solver footprints) x the five built-in base functions and random bases (with and without ties) x 2-D/3-D inputs x 1-D/2-D coordinates x C / Fortran / transposed / strided memory layouts x p in (0,1] incl. 1.0 and 1e-9: 240 quick / 12800 thorough cases, ~35 monitored calls each; exact comparison outside an explicit rounding band. extract_percentile_contour runs behind the argument-purity guard.",
+        "Seeded random fields (ties, zeros, sparse, 1e+-200 magnitudes, solver footprints) x the five built-in base functions and random bases (with and without ties) x 2-D/3-D inputs x 1-D/2-D coordinates x C / Fortran / transposed / strided memory layouts x p in (0,1] incl. 1.0 and 1e-9: 240 quick / 38400 thorough cases, ~35 monitored calls each; exact comparison outside an explicit rounding band. extract_percentile_contour runs behind the argument-purity guard.",
         "Trusted: Python Fraction/fsum arithmetic; the rounding-band width 8*n ulp.",
         "DESIGN.md section 4, C20",
     ),
@@ -145,7 +145,7 @@ CHECKS = {
     "C17": (
         "exploration",
         "reference-model monitor: haversine distance and great-circle initial bearing evaluated next to every observed conversion; round-trip and orientation relations on the real functions",
-        "Stratified + seeded random sampling (>= 16k points quick, 1M thorough) of reference points |lat|<=60, any longitude incl. the antimeridian, offsets 0.5 m - 5 km, scalars and arrays, towers of parsed configurations and of configurations re-built under other origins; exact oracle for round trips/orientation, great-circle oracle with the property's own 0.1 % / 0.1 deg limits. xy_to_latlon runs behind the argument-purity guard.",
+        "Stratified + seeded random sampling (>= 16k points quick, 3M thorough) of reference points |lat|<=60, any longitude incl. the antimeridian, offsets 0.5 m - 5 km, scalars and arrays, towers of parsed configurations and of configurations re-built under other origins; exact oracle for round trips/orientation, great-circle oracle with the property's own 0.1 % / 0.1 deg limits. xy_to_latlon runs behind the argument-purity guard.",
         "Trusted: spherical Earth R=6371000 m; math/numpy trigonometry. Held on the sampled points only.",
         "DESIGN.md section 4, C17",
     ),
